@@ -24,7 +24,7 @@ ASSUMPTIONS = ['in-memory vs reloaded comparison is model-free; part (c) uses th
                'the harness reload mimics the command-line width dispatch (u64 first, then u128)']
 REQUIRED = {t: ['rt:nk', 'rt:align', 'rt:dist', 'rt:map', 'rt:vcf', 'rt:weed', 'rt:delete', 'cli:align', 'cli:map',
                 'narrow:nk', 'narrow:align', 'narrow:map', 'narrow:distance', 'narrow:weed', 'narrow:delete',
-                'narrow:merge-first', 'narrow:merge-second', 'narrow_files_fit_64_bits', 'multi_frame_files', 'miri_round_trips', 'empty:nk', 'empty:merge-first', 'empty:merge-second', 'empty:merge-middle']
+                'narrow:merge-first', 'narrow:merge-second', 'narrow_files_fit_64_bits', 'multi_frame_files', 'rt_rows_compared', 'miri_round_trips', 'empty:nk', 'empty:merge-first', 'empty:merge-second', 'empty:merge-middle']
             for t in ('quick', 'thorough')}
 NARROW_K = [33, 35, 37, 41, 51, 63]
 
@@ -144,6 +144,7 @@ def run_rt(desc, ctx, res):
             if os.path.getsize(ctx.path('rt.skf')) > 70000:
                 res.count('multi_frame_files')
             res.see('rows_order_of_magnitude', len(str(len(table))))
+            res.count('rt_rows_compared', len(table))
             if table:
                 res.nontrivial.append(fingerprint(['rt', k, rcmode, desc['seed']]))
     if res.sample is None and desc['size'] == 'small':
@@ -213,7 +214,7 @@ def run_narrow(desc, ctx, res):
         while len(rows) < n:
             a = narrow_arms(rng, k, rcmode, narrow)
             if a not in rows:
-                rows[a] = G.random_row(rng, ns, rng.choice(['bases', 'twoallele', 'oneambig', 'nearconst']))
+                rows[a] = G.random_row(rng, ns, rng.choice(['bases', 'twoallele', 'oneambig', 'nearconst', 'onlyambig', 'allcodes']))
         for s in range(ns):
             if all(r[s] == '-' for r in rows.values()):
                 rows[next(iter(rows))][s] = 'C'
